@@ -213,6 +213,17 @@ Section NonceDecProofs.
     specialize (H m E). unfold lenN in H. lia.
   Qed.
 
+  Lemma na_dec_panics_spec prefix key c ad :
+    dec prefix key c ad = Panic <->
+    na_dec_panics open_max (length prefix) ivlen taglen (lenN c) (beq (firstn (length prefix) c) prefix) = true.
+  Proof.
+    rewrite na_dec_panic_iff. unfold na_dec_panics, lenN. destruct open_max as [m|].
+    - rewrite !andb_true_iff, beq_eq, N.leb_le, N.ltb_lt. split.
+      + intros [m' [E [H1 [H2 H3]]]]. inversion E; subst m'. repeat split; auto; lia.
+      + intros [[H2 H1] H3]. exists m. repeat split; auto; lia.
+    - split; [intros [m [E _]]; discriminate | discriminate].
+  Qed.
+
 End NonceDecProofs.
 
 (* ---------- nonce-based AEAD framing ---------- *)
